@@ -8,9 +8,9 @@ mod text;
 
 pub use kind::*;
 pub use lexer::{LexerConfig, LexerState, LuaLexer, LuaTokenData};
-pub use parser::{LuaParser, ParserConfig, SpecialFunction};
 #[cfg(feature = "verif")]
 pub use parser::MarkEvent;
+pub use parser::{LuaParser, ParserConfig, SpecialFunction};
 pub use parser_error::{LuaParseError, LuaParseErrorKind};
 pub use syntax::*;
 pub use text::LineIndex;
